@@ -13,7 +13,7 @@ CONSTANTS
   AutoApprove = TRUE
   Opts = {}
   ReportOnce = TRUE
-  MaxLevel = 10
+  MaxLevel = 13
   EmitJson = FALSE
   AtomicPush = TRUE
   FixSelect = TRUE
